@@ -87,6 +87,7 @@ long vs_clock_ms(void);
 const struct vs_ev *vs_log(int *n);
 int  vs_thread_waiting(int tid);                /* 1 iff that thread is blocked on a condition variable now */
 void vs_block_until(int (*pred)(void *), void *arg); /* calling thread is disabled until pred(arg) != 0 (evaluated by the scheduler) */
+void vs_note(const char *s);                    /* annotation appended to a deadlock message, e.g. the phase of the owner script */
 uint64_t vs_mix(uint64_t h, uint64_t v);
 
 #ifdef __cplusplus
